@@ -852,7 +852,8 @@ func getGSpec(tileSize int32, hires Geometry, geomMap GeometryMap) imagetile.Til
 	levelSpec.Resolution = make(dvid.NdFloat32, 3)
 	copy(levelSpec.Resolution, hires.PixelSize)
 	ms2dGSpec := make(imagetile.TileSpec, maxScale+1)
-	for scale := Scaling(0); scale <= maxScale; scale++ {
+	for i := 0; i <= int(maxScale); i++ { // counted in int: a uint8 never exceeds 255
+		scale := Scaling(i)
 		curSpec := levelSpec.Duplicate()
 		ms2dGSpec[imagetile.Scaling(scale)] = imagetile.TileScaleSpec{LevelSpec: curSpec}
 		levelSpec.Resolution[0] *= 2
